@@ -47,6 +47,11 @@ EXPECTED_MISSES = {
 
 # (id, property, expected rule prefix, edits)
 FIRE: List[Tuple[str, str, str, List[Tuple[str, str, str]]]] = [
+    ("load-prefix-byte-not-handed-on", "C10", "S3", [(I, "            size, _ = load_varint(stream)\n", "            prefix = stream.read(1)\n            if not prefix:\n                raise EOFError(\"no further message\")\n            if prefix[0] & 0x80:\n                size, _ = load_varint(stream)\n            else:\n                size = prefix[0]\n")]),
+    ("submessage-parse-skipped-for-fieldless", "C08", "T1", [(I, "                    value = cls().parse(value)\n", "                    data, value = value, cls()\n                    if value._betterproto.meta_by_field_name:\n                        value.parse(data)\n")]),
+    ("string-decode-lenient", "C17", "M7", [(I, "                value = str(value, \"utf-8\")\n", "                value = str(value, \"utf-8\", \"replace\")\n")]),
+    ("type-hints-localns-is-globalns", "C13", "X7", [(I, "        return get_type_hints(cls, module.__dict__, {})", "        return get_type_hints(cls, module.__dict__, module.__dict__)")]),
+    ("enum-members-unwrapped", "C20", "H10", [("src/betterproto/enum.py", "            return MappingProxyType(cls._member_map_)", "            return cls._member_map_")]),
     ("size-varint-shift-loop-0x80", "C09", "L4", [(I, "    elif value < 0:\n        return 10\n    elif value == 0:\n        return 1\n    else:\n        return math.ceil(value.bit_length() / 7)\n", "    elif value < 0:\n        return 10\n    size = 1\n    while value > 0x80:\n        value >>= 7\n        size += 1\n    return size\n")]),
     ("size-varint-shift-loop-by-8", "C09", "L4", [(I, "    elif value < 0:\n        return 10\n    elif value == 0:\n        return 1\n    else:\n        return math.ceil(value.bit_length() / 7)\n", "    elif value < 0:\n        return 10\n    size = 1\n    while value > 0x7F:\n        value >>= 8\n        size += 1\n    return size\n")]),
     ("dump-float-nan-by-table", "C05", "K1", [(I, "    if isinstance(value, float) and math.isnan(value):\n        return NAN\n    return value\n", "    return {math.nan: NAN}.get(value, value)\n")]),
@@ -159,6 +164,9 @@ CODEC = ["C01", "C02", "C06", "C08", "C09", "C10", "C16", "C17", "C20"]
 
 # (id, properties that must stay at exit 0, edits)  -- behaviour-preserving refactors
 SILENT: List[Tuple[str, List[str], List[Any]]] = [
+    ("load-prefix-byte-handed-on", ["C10", "C08", "C17", "C01"], [(I, "            size, _ = load_varint(stream)\n", "            prefix = stream.read(1)\n            if not prefix:\n                raise EOFError(\"no further message\")\n            size, _ = load_varint(stream, prefix)\n")]),
+    ("submessage-parse-as-statement", ["C01", "C02", "C08", "C06"], [(I, "                    value = cls().parse(value)\n", "                    data, value = value, cls()\n                    value.parse(data)\n")]),
+    ("type-hints-vars-namespace", ["C13", "C03"], [(I, "        return get_type_hints(cls, module.__dict__, {})", "        return get_type_hints(cls, vars(module), {})")]),
     ("size-varint-shift-loop", ["C09", "C16", "C10"], [(I, "    elif value < 0:\n        return 10\n    elif value == 0:\n        return 1\n    else:\n        return math.ceil(value.bit_length() / 7)\n", "    elif value < 0:\n        return 10\n    size = 1\n    while value > 0x7F:\n        value >>= 7\n        size += 1\n    return size\n")]),
     ("size-varint-shift-loop-ge", ["C09", "C16", "C10"], [(I, "    elif value < 0:\n        return 10\n    elif value == 0:\n        return 1\n    else:\n        return math.ceil(value.bit_length() / 7)\n", "    elif value < 0:\n        return 10\n    size = 1\n    while value >= 0x80:\n        value >>= 7\n        size += 1\n    return size\n")]),
     ("dump-float-isfinite-first", ["C04", "C05"], [(I, "    if value == float(\"inf\"):\n        return INFINITY\n    if value == -float(\"inf\"):\n        return NEG_INFINITY\n    if isinstance(value, float) and math.isnan(value):\n        return NAN\n    return value\n", "    if not isinstance(value, float) or math.isfinite(value):\n        return value\n    if math.isnan(value):\n        return NAN\n    return INFINITY if value > 0 else NEG_INFINITY\n")]),
